@@ -400,6 +400,83 @@ class Skel:
         return f'(SEffect {"true" if rw else "false"})', j + 1
 
 
+def conditional_registrations():
+    """names registered inside a preprocessor conditional: they exist in some builds only"""
+    out = []
+    for f in sorted(glob.glob(os.path.join(CD, '*.cpp'))):
+        src = strip_comments_strings(open(f).read(), keep_strings=True)
+        for m in re.finditer(r'RegisterTransformation\s*<[^>]*>\s*\w+\s*\(\s*"([^"]+)"', src):
+            depth = 0
+            for line in src[:m.start()].split('\n'):
+                if re.match(r'\s*#\s*if', line):
+                    depth += 1
+                elif re.match(r'\s*#\s*endif', line):
+                    depth -= 1
+            if depth > 0:
+                out.append(m.group(1))
+    return out
+
+
+class DriverSkel(Skel):
+    """TransformationManager::doTransformation: an effect is anything that opens or writes the output"""
+    SINK = re.compile(r'\b(getOutStream|closeOutStream|output\w*Source)\s*\(')
+
+    def cond(self, c):
+        if re.sub(r'\s+', '', c) == 'QueryInstanceOnly':
+            return 'CQuery'
+        k = self.nopaque
+        self.nopaque += 1
+        return f'(COpaque {k})'
+
+    def stmt(self, s, i):
+        n = len(s)
+        while i < n and s[i].isspace():
+            i += 1
+        if re.compile(r'return\b').match(s, i):
+            return 'SReturn', s.index(';', i) + 1
+        if s[i] == '{' or re.compile(r'(if|for|while)\s*\(').match(s, i):
+            return super().stmt(s, i)
+        if re.compile(r'(do|switch|try|goto|case|default)\b').match(s, i):
+            raise TranslatorError(f'doTransformation: unsupported statement {s[i:i + 40]!r}')
+        d, j = 0, i
+        while j < n:
+            if s[j] in '({[':
+                d += 1
+            elif s[j] in ')}]':
+                d -= 1
+            elif s[j] == ';' and d == 0:
+                break
+            j += 1
+        if j >= n:
+            raise TranslatorError('doTransformation: unterminated statement')
+        e = s[i:j]
+        if re.search(r'\bQueryInstanceOnly\s*=[^=]', e):
+            raise TranslatorError('doTransformation assigns QueryInstanceOnly')
+        return f'(SEffect {"true" if self.SINK.search(e) else "false"})', j + 1
+
+
+def driver_skeleton():
+    src = strip_comments_strings(open(os.path.join(CD, 'TransformationManager.cpp')).read())
+    m = re.search(r'bool\s+TransformationManager::doTransformation\s*\([^)]*\)\s*\{', src)
+    if not m:
+        raise TranslatorError('TransformationManager::doTransformation not found')
+    b0 = m.end() - 1
+    b1 = match_close(src, b0, '{', '}')
+    body = src[b0 + 1:b1]
+
+    class NoTU:
+        cpp = 'TransformationManager.cpp'
+
+        def text_may_rewrite(self, *a, **k):
+            return False
+    sk = DriverSkel(NoTU(), body, 'TransformationManager')
+    # loop headers go through text_may_rewrite of the TU: none expected here
+    term = sk.stmts(body)
+    if 'CQuery' not in term:
+        raise TranslatorError('doTransformation does not test QueryInstanceOnly')
+    return sk.nopaque, term
+
+
 def registrations():
     regs = []
     for f in sorted(glob.glob(os.path.join(CD, '*.cpp'))):
@@ -514,6 +591,9 @@ def generate():
     out.append(f'Definition clex_ok : Z := {c["clex_ok"]}%Z.')
     out.append(f'Definition clex_stop : Z := {c["clex_stop"]}%Z.')
     out.append('Definition mutating_helpers : list string := ' + coq_list([coq_string(x) for x in sorted(mut)]) + '.')
+    out.append('Definition conditional_registrations : list string := ' + coq_list([coq_string(x) for x in conditional_registrations()], 'string') + '.')
+    dn, dterm = driver_skeleton()
+    out.append(f'(* TransformationManager::doTransformation: effects = opening / writing the output *)\nDefinition driver_skeleton : nat * stmt := ({dn}, {dterm}).')
     write_if_changed('ClangDelta.v', '\n'.join(out) + '\n')
     stats['mutating_helpers'] = len(mut)
     return stats
